@@ -214,6 +214,21 @@ namespace nmtools::array
                     shape.resize(1);
                 }
                 constexpr auto dim = meta::len_v<shape_type>;
+                if constexpr (meta::is_clipped_index_array_v<shape_type> && (dim > 0)) {
+                    // a buffer that holds exactly the maximal shape (fixed buffer): start with the maximal shape,
+                    // (1,...,1,len(buffer)) would be clamped to the last maximum and disagree with the buffer
+                    constexpr auto max_shape = meta::to_value_v<shape_type>;
+                    auto max_numel = size_t{1};
+                    for (size_t i=0; i<(size_t)dim; i++) {
+                        max_numel *= (size_t)at(max_shape,i);
+                    }
+                    if (max_numel == (size_t)len(buffer)) {
+                        meta::template_for<dim>([&](auto index){
+                            at(shape,index) = at(max_shape,index);
+                        });
+                        return shape;
+                    }
+                }
                 if constexpr (dim > 0) {
                     // to accommodate clipped shape
                     meta::template_for<dim>([&](auto index){
